@@ -14,8 +14,9 @@ PROP = dict(
             models=['GudState'], oracle=G.gud_finite),
         obl('C20.guderley.focus_time', M, [T + 'finding_guderley_focus_time'], models=['GudX', 'GudState'],
             oracle=G.gud_focus, finding=True),
-        obl('C20.rmtv.restrictions', M, [T + 'rmtv_init_accepts_everything', T + 'finding_rmtv_restrictions_not_enforced'],
-            models=['RmtvInit'], oracle=G.rmtv_restrictions, finding=True),
+        obl('C20.rmtv.restrictions', M, [T + 'rmtv_init_accepts_everything', T + 'finding_rmtv_restrictions_not_enforced', T + 'rmtv_derivs_outcome',
+             T + 'rmtv_derivs_leaves'],
+            models=['RmtvInit', 'RmtvDerivs'], oracle=G.rmtv_restrictions, finding=True),
         obl('C20.rmtv.integration_status', None, [], models=[], oracle=G.rmtv_integration, finding=True),
     ],
     corr_models=[],
